@@ -321,7 +321,7 @@ def check_callable(item, acc):
 # ---------------------------------------------------------------------------------------------
 # classes
 
-CLASS_STYLES = ["plain", "slots", "dataclass", "namedtuple", "no_init", "user_new", "init_args", "factory_new", "factory_new_init", "setstate", "abstract_members", "getattr_fallback", "descriptors"]
+CLASS_STYLES = ["plain", "slots", "dataclass", "namedtuple", "no_init", "user_new", "init_args", "factory_new", "factory_new_init", "setstate", "setstate_assign", "abstract_members", "getattr_fallback", "descriptors"]
 CHILDREN = [None, "plain_noinit", "plain_init_args", "dbc_noinit", "dbc_init_args", "dbc_new", "plain_new",
             "plain_grandchild", "dbc_grandchild", "plain_mixin_init", "plain_dict_base", "plain_exception_base",
             "plain_prop_over_attr", "dbc_prop_over_attr"]  # constructor inherited by the class that is instantiated
@@ -386,6 +386,10 @@ def render_class(style, inv, child, dbc, contracts):
             # state restored by __setstate__ on a blank instance (copy, pickle): __setstate__ acts as a constructor
             w.append("    def __init__(self):\n        self.v = 1\n    def __getstate__(self):\n        return {'v': self.v}\n"
                      "    def __setstate__(self, state):\n        self.__dict__.update(state)\n")
+        elif style == "setstate_assign":
+            # ... a __setstate__ which ASSIGNS the attributes one by one (each assignment is a SETATTR event on a half-restored object)
+            w.append("    def __init__(self):\n        self.u = 0\n        self.v = 1\n    def __getstate__(self):\n        return {'u': self.u, 'v': self.v}\n"
+                     "    def __setstate__(self, state):\n        self.u = state['u']\n        self.v = state['v']\n")
         elif style in ("factory_new", "factory_new_init"):
             # __new__ is a factory: for kind != 0 it returns an instance of an unrelated class
             w.insert(len(w) - 1, "class Other:\n    v = 'other'\n")
